@@ -45,17 +45,15 @@ theorem inv_step {s s' : G} {l : Label} (h : Inv s) (hx : excluded s l = false)
   | lnLookup k =>
     simp only [gstep] at hs
     split at hs
-    · cases hs
-    · split at hs
-      · rename_i e hp
-        cases hs
-        obtain ⟨he, _⟩ := h.pool k e hp
-        refine inv_upd h rfl ?_
-        intro _
-        exact ent_lookup_ln (h.ent e he) (inPool_of_pool h hp)
-      · rename_i hp
-        cases hs
-        exact inv_alloc h hp rfl (ent_newCtor k)
+    · rename_i e hp
+      cases hs
+      obtain ⟨he, _⟩ := h.pool k e hp
+      refine inv_upd h rfl ?_
+      intro _
+      exact ent_lookup_ln (h.ent e he) (inPool_of_pool h hp)
+    · rename_i hp
+      cases hs
+      exact inv_alloc h hp rfl (ent_newCtor k)
   | ctorOk e =>
     simp only [gstep] at hs
     split at hs
@@ -80,8 +78,8 @@ theorem inv_step {s s' : G} {l : Label} (h : Inv s) (hx : excluded s l = false)
     · rename_i hg
       cases hs
       have hE := h.ent e hg.1
-      obtain ⟨hm, _, _, _⟩ := ent_failing_facts hE hg.2.1
-      exact inv_unmapUpd h (pool_of_inPool hm) rfl (ent_lnFailDel hE hg.2.1)
+      obtain ⟨hm, _, _, _⟩ := ent_failing_facts hE hg.2
+      exact inv_unmapUpd h (pool_of_inPool hm) rfl (ent_lnFailDel hE hg.2)
     · cases hs
   | lnRead e =>
     simp only [gstep] at hs
@@ -102,28 +100,30 @@ theorem inv_step {s s' : G} {l : Label} (h : Inv s) (hx : excluded s l = false)
   | lsLookup k =>
     simp only [gstep] at hs
     split at hs
-    · cases hs
-    · split at hs
-      · rename_i e hp
-        cases hs
-        obtain ⟨he, _⟩ := h.pool k e hp
-        refine inv_bump (inv_upd h rfl ?_)
-        intro _
-        exact ent_lookup_ls (h.ent e he) (inPool_of_pool h hp)
-      · rename_i hp
-        cases hs
-        exact inv_bump (inv_alloc h hp rfl (ent_newStored k s.nextVal))
+    · rename_i e hp
+      cases hs
+      obtain ⟨he, _⟩ := h.pool k e hp
+      refine inv_bump (inv_upd h rfl ?_)
+      intro _
+      exact ent_lookup_ls (h.ent e he) (inPool_of_pool h hp)
+    · rename_i hp
+      cases hs
+      exact inv_bump (inv_alloc h hp rfl (ent_newStored k s.nextVal))
   | lsRead e v =>
     simp only [gstep] at hs
-    simp only [excluded] at hx
     split at hs
     · rename_i hg
-      rw [hx] at hs
-      simp only [Bool.false_eq_true, if_false] at hs
-      cases hs
-      refine inv_upd h rfl ?_
-      intro he
-      exact ent_lsRead_ok (h.ent e he) hg.2.1 hx hg.2.2
+      split at hs
+      · rename_i herr
+        cases hs
+        refine inv_upd h rfl ?_
+        intro he
+        exact ent_lsRead_err (h.ent e he) hg.2.1 herr hg.2.2
+      · rename_i herr
+        cases hs
+        refine inv_upd h rfl ?_
+        intro he
+        exact ent_lsRead_ok (h.ent e he) hg.2.1 (by simpa using herr) hg.2.2
     · cases hs
   | del1 k ho =>
     cases ho with
@@ -133,7 +133,7 @@ theorem inv_step {s s' : G} {l : Label} (h : Inv s) (hx : excluded s l = false)
       split at hs
       · rename_i hg
         cases hs
-        exact inv_del1 h hg.2.1 hg.2.2.1 hg.2.2.2
+        exact inv_del1 h hg.1 hg.2.1 hg.2.2
       · cases hs
   | del2 e =>
     simp only [gstep] at hs
@@ -157,34 +157,8 @@ theorem inv_step {s s' : G} {l : Label} (h : Inv s) (hx : excluded s l = false)
       intro he
       exact ent_del3 (h.ent e he) hg.2
     · cases hs
-  | refs1 k =>
-    simp only [gstep] at hs
-    split at hs
-    · rename_i e hp
-      cases hs
-      obtain ⟨he, _⟩ := h.pool k e hp
-      refine inv_upd h rfl ?_
-      intro _
-      exact ent_refReaders _ (h.ent e he)
-    · cases hs; exact h
-  | refs2 e =>
-    simp only [gstep] at hs
-    split at hs
-    · cases hs
-      refine inv_upd h rfl ?_
-      intro he
-      exact ent_refReaders _ (h.ent e he)
-    · cases hs
-  | rangeBegin =>
-    simp only [gstep] at hs
-    cases hs
-    exact inv_setRangers _ h
-  | rangeEnd =>
-    simp only [gstep] at hs
-    split at hs
-    · cases hs
-      exact inv_setRangers _ h
-    · cases hs
+  | refs k => simp only [gstep] at hs; cases hs; exact h
+  | range => simp only [gstep] at hs; cases hs; exact h
 
 /-- the invariant holds after every schedule (list of labels) that contains no excluded label -/
 theorem inv_run : ∀ (ls : List Label) (s s' : G), Inv s → cleanRun s ls = true →
